@@ -1,6 +1,8 @@
 import ScriggoV.Lemmas.TypeCheckStmt
 import ScriggoV.Lemmas.Terminating
 import ScriggoV.Model.Assignable
+import ScriggoV.Lemmas.TypeIdent
+import ScriggoV.Gen.TypeIdentical
 /-! # C03 — what is proved about the Go typing rules of the fragment
 
 The *model* is `Model/TypeCheck.lean` (the Go specification's typing of expressions and
@@ -446,5 +448,220 @@ example : implementsAsCoded (fun t => t == myErr) .int myErr = true ∧ implemen
 example : implementsAsCoded (fun t => t == myErr) myErr errorT = false ∧ implements myErr errorT = true := by decide
 
 end Assignability
+
+end ScriggoV.Props.C03
+
+namespace ScriggoV.Props.C03
+
+section TypeIdentity
+/-! ## Type identity of composite types (`Model/TypeIdent.lean`)
+
+The specification's "Type identity", "Assignability" and "Conversions" over a structural type
+syntax, validated against `go/types`' `Identical` / `AssignableTo` / `ConvertibleTo` on every
+pair of the type-identity matrix (`go/props/c03/identity.go`: pairs of types that differ in ONE
+structural feature at some nesting level) on every run (`spec_validation:
+identity-model-vs-go/types`). Identity is an equivalence relation, every structural feature —
+variadic-ness, parameter and result counts, channel direction, array length, field names, tags,
+embedded-ness, method names, which declaration a defined type is — is a projection it respects,
+and corresponding parameters / results / fields / elements of identical types are identical. What
+the seeded regression `C03-variadic-func-identical` broke in `types.identical` (a function type
+`func(...T)` identical to `func([]T)`) is stated outright, for identity, assignability and
+convertibility; the comparisons the code's `identical` makes are re-read from the source
+(`Gen/TypeIdentical.lean`) and must cover every feature. Tied to `scriggo.Build` by the
+differential matrix. -/
+open ScriggoV.TypeIdent
+
+/-- **Identity is equality of normal forms** (a defined type is its declaration; tags are erased
+when they are ignored). -/
+theorem identical_iff_norm_eq (ig : Bool) (a b : Ty) :
+    identical ig a b = true ↔ norm ig a = norm ig b := identical_iff ig a b
+
+/-- **Identity is an equivalence relation.** -/
+theorem identical_refl (ig : Bool) (a : Ty) : identical ig a a = true :=
+  (identical_iff ig a a).2 rfl
+theorem identical_symm (ig : Bool) (a b : Ty) (h : identical ig a b = true) : identical ig b a = true :=
+  (identical_iff ig b a).2 ((identical_iff ig a b).1 h).symm
+theorem identical_trans (ig : Bool) (a b c : Ty) (h₁ : identical ig a b = true)
+    (h₂ : identical ig b c = true) : identical ig a c = true :=
+  (identical_iff ig a c).2 (((identical_iff ig a b).1 h₁).trans ((identical_iff ig b c).1 h₂))
+
+/-- identical types are identical ignoring struct tags (what conversions use is coarser) -/
+theorem identical_ignoring_tags (a b : Ty) (h : identical false a b = true) : identical true a b = true := by
+  rw [identical_iff] at h ⊢
+  rw [← norm_true_norm_false a, ← norm_true_norm_false b, h]
+
+/-- a feature read off the normal form is respected by identity -/
+theorem respects_of_norm {α : Type} (f : Ty → α) (ig : Bool) (hf : ∀ t, f (norm ig t) = f t)
+    (a b : Ty) (h : identical ig a b = true) : f a = f b := by
+  rw [← hf a, ← hf b, (identical_iff ig a b).1 h]
+
+/-- **Each structural feature is a projection identity respects.** -/
+theorem identical_respects_kind (ig : Bool) (a b : Ty) (h : identical ig a b = true) : a.kind = b.kind :=
+  respects_of_norm Ty.kind ig (by intro t; cases t <;> simp [norm, Ty.kind]) a b h
+theorem identical_respects_variadic (ig : Bool) (a b : Ty) (h : identical ig a b = true) :
+    a.variadic? = b.variadic? :=
+  respects_of_norm Ty.variadic? ig (by intro t; cases t <;> simp [norm, Ty.variadic?]) a b h
+theorem identical_respects_numIn (ig : Bool) (a b : Ty) (h : identical ig a b = true) : a.numIn? = b.numIn? :=
+  respects_of_norm Ty.numIn? ig (by intro t; cases t <;> simp [norm, Ty.numIn?, normL_length]) a b h
+theorem identical_respects_numOut (ig : Bool) (a b : Ty) (h : identical ig a b = true) : a.numOut? = b.numOut? :=
+  respects_of_norm Ty.numOut? ig (by intro t; cases t <;> simp [norm, Ty.numOut?, normL_length]) a b h
+theorem identical_respects_chanDir (ig : Bool) (a b : Ty) (h : identical ig a b = true) : a.chanDir? = b.chanDir? :=
+  respects_of_norm Ty.chanDir? ig (by intro t; cases t <;> simp [norm, Ty.chanDir?]) a b h
+theorem identical_respects_arrayLen (ig : Bool) (a b : Ty) (h : identical ig a b = true) : a.arrayLen? = b.arrayLen? :=
+  respects_of_norm Ty.arrayLen? ig (by intro t; cases t <;> simp [norm, Ty.arrayLen?]) a b h
+theorem identical_respects_fieldNames (ig : Bool) (a b : Ty) (h : identical ig a b = true) :
+    a.fieldNames? = b.fieldNames? :=
+  respects_of_norm Ty.fieldNames? ig (by intro t; cases t <;> simp [norm, Ty.fieldNames?, normF_names]) a b h
+theorem identical_respects_fieldEmbedded (ig : Bool) (a b : Ty) (h : identical ig a b = true) :
+    a.fieldEmbedded? = b.fieldEmbedded? :=
+  respects_of_norm Ty.fieldEmbedded? ig (by intro t; cases t <;> simp [norm, Ty.fieldEmbedded?, normF_embedded]) a b h
+/-- tags: unless they are ignored -/
+theorem identical_respects_fieldTags (a b : Ty) (h : identical false a b = true) : a.fieldTags? = b.fieldTags? :=
+  respects_of_norm Ty.fieldTags? false (by intro t; cases t <;> simp [norm, Ty.fieldTags?, normF_tags]) a b h
+theorem identical_respects_methodNames (ig : Bool) (a b : Ty) (h : identical ig a b = true) :
+    a.methodNames? = b.methodNames? :=
+  respects_of_norm Ty.methodNames? ig (by intro t; cases t <;> simp [norm, Ty.methodNames?, normM_names]) a b h
+/-- "a named type is always different from any other type": a defined type is identical to the
+same declaration only -/
+theorem identical_respects_namedId (ig : Bool) (a b : Ty) (h : identical ig a b = true) : a.namedId? = b.namedId? :=
+  respects_of_norm Ty.namedId? ig (by intro t; cases t <;> simp [norm, Ty.namedId?]) a b h
+theorem identical_named_iff (ig : Bool) (i j : Nat) (u w : Ty) :
+    identical ig (.named i u) (.named j w) = true ↔ i = j := by simp [identical]
+
+/-- **corresponding parts of identical types are identical**: element / base types … -/
+theorem identical_ptr_iff (ig : Bool) (a b : Ty) : identical ig (.ptr a) (.ptr b) = identical ig a b := by
+  simp [identical]
+theorem identical_slice_iff (ig : Bool) (a b : Ty) : identical ig (.slice a) (.slice b) = identical ig a b := by
+  simp [identical]
+theorem identical_array_iff (ig : Bool) (n m : Nat) (a b : Ty) :
+    identical ig (.array n a) (.array m b) = true ↔ n = m ∧ identical ig a b = true := by simp [identical]
+theorem identical_map_iff (ig : Bool) (k l a b : Ty) :
+    identical ig (.map k a) (.map l b) = true ↔ identical ig k l = true ∧ identical ig a b = true := by
+  simp [identical]
+theorem identical_chan_iff (ig : Bool) (d e : Dir) (a b : Ty) :
+    identical ig (.chan d a) (.chan e b) = true ↔ d = e ∧ identical ig a b = true := by simp [identical]
+/-- … function types: "both functions are variadic or neither is", the same number of parameters
+and of results, corresponding ones identical … -/
+theorem identical_func_iff (ig : Bool) (ps rs qs ss : TyList) (v w : Bool) :
+    identical ig (.func ps rs v) (.func qs ss w) = true ↔
+      v = w ∧ identicalL ig ps qs = true ∧ identicalL ig rs ss = true := by
+  simp [identical, and_assoc]
+theorem identical_func_params (ig : Bool) (ps rs qs ss : TyList) (v w : Bool)
+    (h : identical ig (.func ps rs v) (.func qs ss w) = true) :
+    ps.length = qs.length ∧ rs.length = ss.length ∧
+    (∀ i a b, ps.get? i = some a → qs.get? i = some b → identical ig a b = true) ∧
+    (∀ i a b, rs.get? i = some a → ss.get? i = some b → identical ig a b = true) := by
+  obtain ⟨_, hp, hr⟩ := (identical_func_iff ig ps rs qs ss v w).1 h
+  exact ⟨identicalL_length ig ps qs hp, identicalL_length ig rs ss hr,
+    identicalL_get ig ps qs hp, identicalL_get ig rs ss hr⟩
+/-- … struct types: corresponding fields have identical types. -/
+theorem identical_struct_fields (ig : Bool) (fs gs : Fields) (h : identical ig (.struct fs) (.struct gs) = true) :
+    ∀ i a b, fs.get? i = some a → gs.get? i = some b → identical ig a b = true := by
+  simp only [identical] at h
+  exact identicalF_get ig fs gs h
+
+/-- **`func(...T)` and `func([]T)` are different types** — whatever the parameters and results. -/
+theorem variadic_func_not_identical_to_slice_func (ig : Bool) (ps rs qs ss : TyList) :
+    identical ig (.func ps rs true) (.func qs ss false) = false := by simp [identical]
+
+/-! ### Assignability and convertibility decide by identity -/
+
+theorem assignable_of_identical (v t : Ty) (h : identical false v t = true) : assignable v t = true := by
+  simp [assignable, h]
+
+theorem underlying_not_named : (t : Ty) → t.underlying.namedId? = none
+  | .named _ u => by simp only [Ty.underlying]; exact underlying_not_named u
+  | .basic _ | .ptr _ | .slice _ | .array .. | .map .. | .chan .. | .func .. | .struct _ | .iface _ => by
+    simp [Ty.underlying, Ty.namedId?]
+
+/-- the two types, when they are the same declaration `named i _`, carry the same underlying type
+(a well-formed program declares a type once) -/
+def SameDecl (v t : Ty) : Prop := ∀ i u w, v = .named i u → t = .named i w → u = w
+
+/-- a value can be assigned to a variable of a FUNCTION type only if the underlying types are
+identical: the same variadic-ness, the same counts, identical parameters and results -/
+theorem assignable_to_func (v t : Ty) (qs ss : TyList) (w : Bool) (hd : SameDecl v t)
+    (ht : t.underlying = .func qs ss w)
+    (h : assignable v t = true) : identical false v.underlying t.underlying = true := by
+  have hi : implements v t = false := by simp [implements, ht]
+  have hc : chanRule v t = false := by
+    unfold chanRule; rw [ht]; split <;> simp_all
+  simp only [assignable, hi, hc, Bool.or_false, Bool.or_eq_true, Bool.and_eq_true] at h
+  rcases h with h | h
+  · -- identical types: the same declaration, or both their own underlying type
+    cases t with
+    | named j w' =>
+      cases v with
+      | named i u =>
+        have hij : i = j := by simpa [identical] using h
+        subst hij
+        have := hd i u w' rfl rfl
+        subst this
+        exact identical_refl false _
+      | _ => simp [identical] at h
+    | func qs' ss' w' =>
+      cases v <;> simp [identical] at h
+      simpa [Ty.underlying, identical] using h
+    | _ => simp [Ty.underlying] at ht
+  · exact h.1
+
+/-- **a `func([]T)` value is not assignable to a `func(...T)` variable, nor the other way round**
+(variable declaration, assignment, argument, return value, struct field, channel send) -/
+theorem assignable_func_same_variadic (v t : Ty) (ps rs qs ss : TyList) (x w : Bool) (hd : SameDecl v t)
+    (hv : v.underlying = .func ps rs x) (ht : t.underlying = .func qs ss w)
+    (h : assignable v t = true) : x = w := by
+  have := assignable_to_func v t qs ss w hd ht h
+  rw [hv, ht] at this
+  exact ((identical_func_iff false ps rs qs ss x w).1 this).1
+
+/-- … nor convertible: `T(x)` between function types needs identical underlying types, up to
+struct tags -/
+theorem convertible_func_same_variadic (v t : Ty) (ps rs qs ss : TyList) (x w : Bool) (hd : SameDecl v t)
+    (hv : v.underlying = .func ps rs x) (ht : t.underlying = .func qs ss w)
+    (h : convertible v t = true) : x = w := by
+  have hb : ∀ p, isBasicWith p t = false := by intro p; simp [isBasicWith, ht]
+  have hbr : isBytesOrRunes t = false := by simp [isBytesOrRunes, ht]
+  have hsa : sliceToArray v t = false := by
+    unfold sliceToArray; rw [hv, ht]
+  have hp : ptrRule v t = false := by
+    cases v <;> cases t <;> simp_all [ptrRule, Ty.underlying]
+  simp only [convertible, hb, hbr, hsa, hp, Bool.and_false, Bool.or_false, Bool.or_eq_true] at h
+  rcases h with h | h
+  · exact assignable_func_same_variadic v t ps rs qs ss x w hd hv ht h
+  · rw [hv, ht] at h
+    exact ((identical_func_iff true ps rs qs ss x w).1 h).1
+
+/-! `var f func(...int) = func(a []int) {}`, `type V func(...int); V(g)` with `g func([]int)`,
+a bidirectional channel to a directional one and not back, struct tags in conversions only -/
+def intT : Ty := .basic .int
+def fVariadic : Ty := .func (.cons (.slice intT) .nil) .nil true
+def fSlice : Ty := .func (.cons (.slice intT) .nil) .nil false
+example : SameDecl fSlice fVariadic := by intro i u w h; cases h
+example : assignable fSlice fVariadic = false ∧ assignable fVariadic fSlice = false := by decide +kernel
+example : convertible fSlice (.named 7 fVariadic) = false ∧ convertible fVariadic (.named 7 fVariadic) = true := by decide +kernel
+example : assignable fVariadic (.named 7 fVariadic) = true ∧ assignable (.named 8 fVariadic) (.named 7 fVariadic) = false := by decide +kernel
+example : assignable (.chan .both intT) (.chan .recv intT) = true ∧ assignable (.chan .recv intT) (.chan .both intT) = false := by decide +kernel
+example : let s := fun tag => Ty.struct (.cons "A" tag false intT .nil)
+    assignable (s "") (s "k") = false ∧ convertible (s "") (s "k") = true := by decide +kernel
+example : identical false (.func (.cons intT (.cons (.slice intT) .nil)) .nil true)
+    (.func (.cons intT (.cons (.slice intT) .nil)) .nil true) = true := by decide +kernel
+/-- an interface value goes to an interface with fewer methods, not to one with more -/
+example : let m := fun n => Ty.func .nil .nil false |> fun f => (n, f)
+    let i1 := Ty.iface (.cons (m "M").1 (m "M").2 .nil)
+    let i2 := Ty.iface (.cons (m "M").1 (m "M").2 (.cons (m "N").1 (m "N").2 .nil))
+    assignable i2 i1 = true ∧ assignable i1 i2 = false := by decide +kernel
+
+/-- **The code compares every feature** (regenerated fact): for each `reflect.Kind`, the
+comparisons found in `types.identical` (`Gen/TypeIdentical.lean`) include every one the
+specification requires (`required`: counts, `IsVariadic`, `ChanDir`, `Len`, field `Name`,
+`PkgPath`, `Tag` unless ignored, `Anonymous`, method `Name`, `PkgPath`, and the recursive
+identity of elements, keys, parameters, results, field and method types). -/
+theorem coded_identical_compares_every_feature :
+    coversRequired ScriggoV.Gen.TypeIdentical.compared = true := by decide
+
+/-- the list is not vacuous: without `IsVariadic` it is not covered -/
+example : coversRequired [(.Func, [.cmp .NumIn, .cmp .NumOut, .eachIdn .In, .eachIdn .Out])] = false := by decide +kernel
+
+end TypeIdentity
 
 end ScriggoV.Props.C03
